@@ -135,6 +135,23 @@ class Parser(object):
                 line, pos
             )
             fieldnames.add(name)
+            if member.is_array:
+                self._parser_check(
+                    member.kind != model.Kind.UNLIMITED,
+                    "array '{}' of unlimited type".format(name),
+                    line, pos
+                )
+                self._parser_check(
+                    not member.size or member.kind == model.Kind.FIXED,
+                    "fixed or limited array '{}' of dynamic type".format(name),
+                    line, pos
+                )
+            if member.optional:
+                self._parser_check(
+                    member.kind == model.Kind.FIXED,
+                    "optional field '{}' of dynamic type".format(name),
+                    line, pos
+                )
             if member.bound:
                 bound, _, __ = next(six.ifilter(lambda m: m[0].name == member.bound, members[:i]), (None, None, None))
                 if bound:
